@@ -164,7 +164,7 @@ def run(ctx):
         "rule": "old-format files crafted with h5py: versions 0.9.9/1.0.0/1.1.0/1.1.1/lib-1 (and up-to-date / newer ones), with or "
                 "without file id, 0-5 properties each old (compound: int/float/bool/text values, per-value uncertainty / reference / "
                 "filename / encoder / checksum, unit and definition incl. empty) or already new, 0-3 range dimensions (alias / ticks / "
-                "linked); for EVERY interruption point (after 0..n micro-steps, and none) the upgrade is cut, the file inspected, the "
+                "linked), optionally a second section whose `link` leads to the section with the properties and is visited first; for EVERY interruption point (after 0..n micro-steps, and none) the upgrade is cut, the file inspected, the "
                 "upgrade re-run, inspected again, collect_tasks called, the result opened for writing with nixio and read, and a third "
                 "upgrade run. non-trivial = the file has at least one property or dimension.",
         "files": nfiles, "disagreements": len(disagreements), "spec_failures": len(failures),
